@@ -319,8 +319,21 @@ def be_int(sb, st):
   t = z3.simplify(tot)
   if is_sym(t) and not z3.is_int_value(t):
     st.register_decomp(t, list(reversed(vals)))
+    _register_bits_from_bytes(t, list(reversed(vals)), st)
     return t
   return concretize(t)
+
+
+def _register_bits_from_bytes(t, bytes_le, st):
+  bits = []
+  for b in bytes_le:
+    bb = st.bits_of(b)
+    if bb is None:
+      return
+    if len(bb) > 8:
+      return
+    bits.extend(list(bb) + [0] * (8 - len(bb)))
+  st.register_bits(t, bits)
 
 
 def le_int(sb, st):
@@ -334,6 +347,7 @@ def le_int(sb, st):
   t = z3.simplify(tot)
   if is_sym(t) and not z3.is_int_value(t):
     st.register_decomp(t, list(vals))
+    _register_bits_from_bytes(t, list(vals), st)
     return t
   return concretize(t)
 
